@@ -37,6 +37,8 @@ type FieldSpec struct {
 	Type string    `json:"type,omitempty"`
 	Req  []string  `json:"req,omitempty"`
 	Args []ArgSpec `json:"args,omitempty"`
+	// Deprecated gives the field a DeprecationReason (independent of Req: both may be set).
+	Deprecated bool `json:"deprecated,omitempty"`
 	// Conn, when set, makes this field an apifu.Connection (types <Prefix>Connection / <Prefix>Edge,
 	// both carrying the field's required features).
 	Conn *ConnSpec `json:"conn,omitempty"`
@@ -50,7 +52,9 @@ type TypeSpec struct {
 	Ifaces  []string    `json:"ifaces,omitempty"`  // object
 	Members []string    `json:"members,omitempty"` // union
 	Values  []string    `json:"values,omitempty"`  // enum
-	Inputs  []ArgSpec   `json:"inputs,omitempty"`  // input object fields
+	// DepValues are the enum values that carry a DeprecationReason.
+	DepValues []string  `json:"deprecated_values,omitempty"`
+	Inputs    []ArgSpec `json:"inputs,omitempty"` // input object fields
 	// Builtin marks a type that is provided by the library (apifu.PageInfoType); the builder uses
 	// the library's object instead of constructing one.
 	Builtin string `json:"builtin,omitempty"`
@@ -88,6 +92,7 @@ func (s *Spec) clone() *Spec {
 		nt.Ifaces = append([]string(nil), t.Ifaces...)
 		nt.Members = append([]string(nil), t.Members...)
 		nt.Values = append([]string(nil), t.Values...)
+		nt.DepValues = append([]string(nil), t.DepValues...)
 		nt.Inputs = append([]ArgSpec(nil), t.Inputs...)
 		nt.Fields = nil
 		for _, f := range t.Fields {
@@ -291,7 +296,7 @@ func eraseSpec(s *Spec, F map[string]bool) *Spec {
 			continue
 		}
 		nt := TypeSpec{Kind: t.Kind, Name: t.Name, Req: append([]string(nil), t.Req...), Builtin: t.Builtin,
-			Values: append([]string(nil), t.Values...), Inputs: append([]ArgSpec(nil), t.Inputs...)}
+			Values: append([]string(nil), t.Values...), DepValues: append([]string(nil), t.DepValues...), Inputs: append([]ArgSpec(nil), t.Inputs...)}
 		for _, f := range t.Fields {
 			if !subset(f.Req, F) {
 				continue
@@ -346,9 +351,13 @@ func specSexp(s *Spec) hx.Sexp {
 			if f.Conn != nil {
 				panic("specSexp needs an expanded spec")
 			}
-			fs[i] = hx.L(hx.A(f.Name), hx.A(f.Type), strs(f.Req), argsSexp(f.Args))
+			dep := "-"
+			if f.Deprecated {
+				dep = "dep"
+			}
+			fs[i] = hx.L(hx.A(f.Name), hx.A(f.Type), strs(f.Req), argsSexp(f.Args), hx.A(dep))
 		}
-		ts = append(ts, hx.L(hx.A(t.Kind), hx.A(t.Name), strs(t.Req), hx.L(fs...), strs(t.Ifaces), strs(t.Members), strs(t.Values), argsSexp(t.Inputs)))
+		ts = append(ts, hx.L(hx.A(t.Kind), hx.A(t.Name), strs(t.Req), hx.L(fs...), strs(t.Ifaces), strs(t.Members), strs(t.Values), argsSexp(t.Inputs), strs(t.DepValues)))
 	}
 	return hx.L(ts...)
 }
@@ -366,7 +375,11 @@ func canonSpec(s *Spec) string {
 			sort.Strings(as)
 			r := append([]string(nil), f.Req...)
 			sort.Strings(r)
-			fs = append(fs, fmt.Sprintf("%s(%s):%s@%s", f.Name, strings.Join(as, ","), f.Type, strings.Join(r, "+")))
+			dep := ""
+			if f.Deprecated {
+				dep = "~"
+			}
+			fs = append(fs, fmt.Sprintf("%s%s(%s):%s@%s", f.Name, dep, strings.Join(as, ","), f.Type, strings.Join(r, "+")))
 		}
 		sort.Strings(fs)
 		var in []string
@@ -381,6 +394,9 @@ func canonSpec(s *Spec) string {
 		m := append([]string(nil), t.Members...)
 		sort.Strings(m)
 		v := append([]string(nil), t.Values...)
+		for _, d := range t.DepValues {
+			v = append(v, d+"~")
+		}
 		sort.Strings(v)
 		ts = append(ts, fmt.Sprintf("%s %s@%s{%s}impl[%s]mem[%s]val[%s]in[%s]", t.Kind, t.Name, strings.Join(r, "+"), strings.Join(fs, ";"), strings.Join(i, ","), strings.Join(m, ","), strings.Join(v, ","), strings.Join(in, ",")))
 	}
